@@ -75,9 +75,10 @@ def run_verus(path, unit, rlimit=None, seed=None, timeout=1500):
             ok = f.get("success", False)
             res.fn_ok[f["function"]] = res.fn_ok.get(f["function"], True) and ok
     # diagnostics
-    text = unit.text
+    # rustc spans are BYTE offsets: index the generated text as bytes
+    text = unit.text.encode("utf-8")
     line_off = [0]
-    for l in text.split("\n"): line_off.append(line_off[-1] + len(l) + 1)
+    for l in text.split(b"\n"): line_off.append(line_off[-1] + len(l) + 1)
     for ln in se.split("\n"):
         ln = ln.strip()
         if not ln.startswith("{"): continue
@@ -140,10 +141,11 @@ def classify_msg(msg, d, unit, fn, text, line_off):
         if fn:
             s0 = unit.marks.get("fn:%s:body" % fn, 1)
             a = line_off[s0 - 1]; b = sp["byte_start"]
-            ordinal = len(re.findall(r"\b%s\s*(?:::<[^>]*>)?\s*\(" % re.escape(callee), text[a:b])) + 1
+            rx = re.compile((r"\b%s\s*(?:::<[^>]*>)?\s*\(" % re.escape(callee)).encode())
+            ordinal = len(rx.findall(text[a:b])) + 1
             # the failing call itself may start at byte_start with a receiver; count inside the span too
             inner = text[b:sp["byte_end"]]
-            pos = [m_.start() for m_ in re.finditer(r"\b%s\s*(?:::<[^>]*>)?\s*\(" % re.escape(callee), inner)]
+            pos = [m_.start() for m_ in rx.finditer(inner)]
             if len(pos) > 1: ordinal += len(pos) - 1
         # failed clause text (secondary span)
         clause = ""
